@@ -55,3 +55,23 @@ def free(ctx, runs, maxn, tag=""):
     ctx.evaluations += runs
     ctx.nontrivial += runs
     return ok
+
+
+def tinv(ctx, prefix, nrec):
+    """thread-count invariance on larger inputs (megabytes of output): 1 thread vs 2, 5, 16 threads; only the events whose
+    label starts with `prefix` belong to the calling property"""
+    raw = ctx.path("tinv_all.ndjson")
+    vlib.kvh(["trace", "tinv", ctx.seed, ctx.rundir, nrec], out=raw)
+    out = ctx.path("tinv.ndjson")
+    n = 0
+    with open(out, "w") as f:
+        for line in open(raw):
+            e = json.loads(line)
+            if e["ev"] == "eq" and e["what"].startswith(prefix):
+                f.write(line)
+                n += 1
+        f.write('{"ev":"eof"}\n')
+    ok = vlib.validate_trace(ctx, "FactsTrace", out, "thread-count invariance on a large input (%d records): %s, 1 vs 2/5/16 threads" % (nrec, prefix), "eq")
+    ctx.evaluations += n
+    ctx.nontrivial += n
+    return ok
